@@ -33,6 +33,9 @@ func (f *FnVC) sourceOrdinal(ac *spec.AtCall, pos token.Pos) int {
 					continue
 				}
 				_, _, display := f.calleeKeys(c)
+				if b, isBuiltin := c.Value.(*ssa.Builtin); isBuiltin {
+					display = b.Name() // builtins are selected by their bare name (append, len, delete, ...)
+				}
 				if !matchCallee(ac.Pattern, display) {
 					continue
 				}
